@@ -44,7 +44,7 @@ fn main() {
     for i in 0..100 {
         while b.read_next(&topic("b", i), true).unwrap().is_some() {}
     }
-    let deadline = Instant::now() + Duration::from_secs(8);
+    let deadline = Instant::now() + Duration::from_secs(25);
     while Instant::now() < deadline && a_file1.exists() { thread::sleep(Duration::from_millis(100)); }
     let alive = a_file1.exists();
     drop(b);
